@@ -334,6 +334,22 @@ func (g *generator) next(r *run) string {
 		return fmt.Sprintf("%d drain+ %s %d %d %s", dt, q.comps, q.plat, sc, g.pattern())
 	case 8: // remove drain
 		q, sc := g.pickQueue()
+		// Generator restriction: RemoveDrain broadcasts to all drained workers of the queue;
+		// when two or more of them are blocked, which one the Go runtime lets take a queued
+		// task first is not determined, while the model runs their continuations in a fixed
+		// order.  Such hand-outs are only generated in the monitor-only histories.
+		if !r.noModel {
+			prefix := fmt.Sprintf("%d/%d/", w.pqID(ints(q.comps), q.plat), sc)
+			waiting := 0
+			for k, cl := range w.syncs {
+				if !cl.done && strings.HasPrefix(k, prefix) && strings.Contains(r.last, "w "+k+" task=- ") && !strings.Contains(r.last, "w "+k+" task=- term=0 parked=1") && !strings.Contains(r.last, "w "+k+" task=- term=1 parked=1") {
+					waiting++
+				}
+			}
+			if waiting >= 2 {
+				return fmt.Sprintf("%d touch", dt)
+			}
+		}
 		return fmt.Sprintf("%d drain- %s %d %d %s", dt, q.comps, q.plat, sc, g.pattern())
 	case 9: // terminate workers
 		g.nextK++
